@@ -1416,10 +1416,11 @@ async fn unspecified_listen_address_webrtc() {
     for iface in NetworkInterface::show().unwrap() {
         for address in iface.addr {
             match address {
-                network_interface::Addr::V4(record) =>
+                network_interface::Addr::V4(record) => {
                     if let Some(port) = ip4_port {
                         expected.insert((IpAddr::V4(record.ip), port));
-                    },
+                    }
+                }
                 network_interface::Addr::V6(record) => {
                     // Link-local addresses are deliberately not advertised.
                     if record.ip.segments()[0] != 0xfe80 {
